@@ -1,9 +1,9 @@
 """C08 — jobs running under a token never hold more than its capacity (one scheduler, in-process token; the file-based multi-scheduler part is xv.props.c08 thorough)."""
 from .. import common
-from . import _sched, c08files
+from . import _sched, c08files, c08x_cwd
 
 PROP = "C08"
-MODULES = ["XpmVerif.Properties.C08"] + c08files.MODULES
+MODULES = ["XpmVerif.Properties.C08"] + c08files.MODULES + c08x_cwd.MODULES
 GEN = dict(max_jobs=7, max_tokens=3, resubmit=False, markers=False, fail_p=0.15)
 RULE = ("random workloads with up to 3 tokens (totals 1-4, requests 1-total) x random schedules + exhaustive schedules of 5 small workloads; monitor: at every event the running jobs' requests sum to <= total and availability >= 0; non-trivial = some dependency and >= 2 out-of-FIFO deliveries")
 
@@ -13,13 +13,18 @@ def prove(ctx):
 
 
 def correspond(ctx):
-    _sched.run(ctx, PROP, GEN, RULE, 1500, 25000)
-    c08files.correspond(ctx)   # file-based token shared by several schedulers (model M2')
+    cwd = c08x_cwd.begin(ctx, PROP)   # two real scheduler processes with different working directories (run in the background meanwhile)
+    try:
+        _sched.run(ctx, PROP, GEN, RULE, 1500, 25000)
+        c08files.correspond(ctx)   # file-based token shared by several schedulers (model M2')
+    finally:
+        c08x_cwd.end(ctx, cwd, PROP)   # who a token file names (model M2' + naming, Properties/C08Names.lean)
 
 
 def search(ctx):
     _sched.search(ctx, PROP, GEN)
     c08files.search(ctx)
+    c08x_cwd.search(ctx, PROP)
 
 
 def run_witness(ctx, finding):
@@ -28,4 +33,4 @@ def run_witness(ctx, finding):
 
 def replay(ctx, obj):
     mine = {"failures": [x for x in obj.get("failures", []) if x["case"].get("engine") != "tokeng" and "scenario" not in x["case"]]}
-    return max(c08files.replay(ctx, obj), _sched.replay_events(ctx, PROP, mine))
+    return max(c08files.replay(ctx, obj), c08x_cwd.replay(ctx, PROP, obj), _sched.replay_events(ctx, PROP, mine))
